@@ -233,6 +233,44 @@ Theorem C04_claim_amount_is_announced : forall s0 o0 hash A d ops known,
        forall o, In o outs -> exists pid r, o = OFailPart pid r).
 Proof. exact claim_amount_is_announced. Qed.
 
+(** What acceptance of a part implies, with the thresholds regenerated from the source (the height
+    passed at the call site is the best block's; the final-hop check is
+    [cltv_expiry <= height + HTLC_FAIL_BACK_BUFFER + 1 => reject]; the registered
+    min_final_cltv_expiry_delta check is [cltv_expiry < height + delta => reject]): a part that is not
+    failed back at once is authentic, was not underpaid, and leaves a claim window: its own fail-back
+    height cltv - HTLC_FAIL_BACK_BUFFER is at least two blocks above the current height, and its
+    expiry respects the registered minimum final CLTV delta. *)
+Theorem C04_accepted_leaves_claim_window : forall s hash pid onion_cltv cltv value intended fl purpose auth min_cltv sk up,
+  (forall r, ~ In (OFailPart pid r) (snd (step s (Recv hash pid onion_cltv cltv value intended fl purpose auth min_cltv sk up)))) ->
+  auth = true /\ onion_cltv <= cltv /\
+  height s + HTLC_FAIL_BACK_BUFFER + 2 <= cltv /\
+  (forall d, min_cltv = Some d -> height s + d <= cltv) /\
+  final_hop_underpaid up intended value sk = false.
+Proof. exact recv_accepted_window. Qed.
+
+(** The numeric half of inbound_payment::verify (regenerated: calculate_absolute_expiry and the two
+    comparisons): accepted iff the committed total reaches the registered minimum and the time passed
+    at the call site is at most creation time + invoice_expiry_delta_secs + 7200 - ONE grace period. *)
+Theorem C04_verify_numeric_spec : forall total min_amt t0 delta now,
+  verify_numeric_ok total min_amt t0 delta now = true <-> min_amt <= total /\ now <= t0 + delta + 7200.
+Proof. exact verify_numeric_ok_spec. Qed.
+
+(** ... and the hand model of part A uses exactly these. *)
+Theorem C04_secret_model_pins :
+  (forall now delta, LdkV.Model.InboundSecret.absolute_expiry now delta = calculate_absolute_expiry now delta) /\
+  (forall total a, (total <? a) = verify_amount_too_low total a) /\
+  (forall e now, (e <? now) = verify_expired e now).
+Proof. exact secret_model_pins. Qed.
+
+(** A keysend HTLC (its payment secret, if any, is not looked at) makes a payment claimable only if its
+    preimage hashes to the payment hash; any other HTLC only if verify accepted its payment secret. *)
+Theorem C04_keysend_claimable_needs_matching_preimage :
+  forall s hash A d pid onion_cltv cltv value intended fl purpose ks v min_cltv sk up,
+  In (OClaimable hash A d)
+     (snd (step s (Recv hash pid onion_cltv cltv value intended fl purpose (recv_auth ks v) min_cltv sk up))) ->
+  match ks with Some hash_matches => hash_matches = true | None => v = true end.
+Proof. exact keysend_claimable_needs_matching_preimage. Qed.
+
 (** ... and every state reached from the empty one has one entry per payment hash. *)
 Theorem C04_reachable_sorted : forall h ops, sorted (claimable (fst (run (init h) ops))).
 Proof. exact reachable_sorted. Qed.
